@@ -227,6 +227,7 @@ class Built:
         self.duration_registry = None
         self.repetition_registry = None
         self.links: Dict[Tuple[int, ...], Any] = {}       # path -> RelationLink object given to the constructor
+        self.passed: Dict[Tuple[int, ...], Any] = {}      # path -> object handed to add()
 
 
 def _classes():
@@ -279,9 +280,11 @@ def build(program, built: Optional[Built] = None) -> Built:
             if is_sub(it):
                 child = make_decl(it["sub"], p)
                 fill(child, it["sub"], p, ancestors + [decl])
+                b.passed[p] = child
                 b.handles[p] = decl.add(child)
             else:
                 op = make_operation(it, p, path, decl, ancestors, b)
+                b.passed[p] = op
                 b.handles[p] = decl.add(op)
 
     top = make_decl(program["top"], ())
